@@ -1,13 +1,16 @@
 /-
-  C12 — JSON round-trips and is equivalent to the CBOR form (tree level).
-  Property theorems only.  Go's JSON *text* layer (escaping, number syntax) is in the trusted
-  base; the theorems are about JSON trees.
+  C12 — JSON round-trips and is equivalent to the CBOR form.
+  Property theorems only.  The claims-level theorems are about JSON trees; the `json_text_*` theorems at the end
+  carry them down to bytes: the text `json.Marshal` emits for a tree (`JText.render`, modelled after `appendString`
+  with HTML escaping) reads back, through the model of Go's reader (`JText.parseDoc`), to the same tree.  Both
+  functions are tied to encoding/json by ops `jrender` / `jtext`; the library's own output goes through `jtext`.
 -/
 import Psa.Proofs.JsonShape
 import Psa.Proofs.Base64
 import Psa.Tie.Facts.Fields
 import Psa.Props.C01
 import Psa.Proofs.JsonRoundTrip
+import Psa.Proofs.JsonText
 namespace Psa.Props.C12
 open Psa Psa.Model Psa.Spec Psa.Proofs
 
@@ -78,5 +81,32 @@ theorem cbor_json_cbor (u : Bytes → Dec Bytes) (extra : List Bytes) (c : Claim
     ∃ b c1 j c2, encodeClaims c = .ok b ∧ decodeClaims u extra b = .ok c1 ∧ encodeJSON c1 = .ok j ∧
       decodeClaimsJSON u builtinRegistry j = .ok c2 ∧ encodeClaims c2 = .ok b ∧ ∀ g, Model.get g c2 = Model.get g c :=
   Proofs.JRT.cbor_json_cbor u extra c hv hb ht hbi hu
+
+/-! ### the text layer -/
+
+/-- **a string reads back from its JSON literal**: for every valid UTF-8 string — quotes, backslashes, control
+    characters, `<`, `>`, `&`, U+2028 / U+2029 and every multi-byte sequence included — the reader applied to the
+    writer's literal (and whatever follows the closing quote) returns the string and what follows -/
+theorem json_text_string_roundtrip (s : Bytes) (hs : validUTF8 s = true) (tail : Bytes) (f : Nat)
+    (hf : (JText.renderBody s).length < f) :
+    JText.parseBody f (JText.renderBody s ++ 0x22 :: tail) = some (s, tail) :=
+  JText.parseBody_renderBody s hs tail f hf
+
+/-- **an integer of any size and sign reads back from its decimal text** (followed by nothing or by a delimiter) -/
+theorem json_text_int_roundtrip (i : Int) (rest : Bytes) (hr : JText.NumEnd rest) :
+    JText.parseNumber (JText.renderInt i ++ rest) = some (.int i, rest) :=
+  JText.parseNumber_renderInt i rest hr
+
+/-- **a document reads back from its text**: every tree with integer numbers and valid UTF-8 strings and member
+    names, of any size and nesting -/
+theorem json_text_roundtrip (j : Json) (hw : JText.WF j = true) : JText.parseDoc (JText.render j) = some j :=
+  JText.parseDoc_render j hw
+
+-- non-vacuity: a document with an escape of each kind
+example : JText.WF (.obj [(strBytes "a<b", .arr [.int (-12), .str [0x22, 0x5C, 0x0A, 0x01, 0xE2, 0x80, 0xA8, 0xC3, 0xA9], .null])]) = true := by
+  decide
+example : JText.parseBody 100 (strBytes "\\u00e9\\ud83d\\ude00\\n\"x") =
+    some ([0xC3, 0xA9, 0xF0, 0x9F, 0x98, 0x80, 0x0A], strBytes "x") := by
+  decide
 
 end Psa.Props.C12
